@@ -277,7 +277,8 @@ class BadExprLintStream(Stream):
             # the report has no contributors: take them as read
             why = judge(f, {"C": set(e["C"]), "L": set(e["L"]), "N": set(out["N"]) if (e["C"] or e["L"]) else set()})
             if why:
-                return "%s: %s" % (f["name"], why)
+                head, _, rest = why.partition(": ")
+                return "%s: in %s: %s" % (head, f["name"], rest)
         return None
 
     def nontrivial(self, case, impl_out):
